@@ -203,6 +203,22 @@ func main() {
 		must(os.MkdirAll(filepath.Dir(dst), 0o755))
 		must(os.WriteFile(dst, src, 0o644))
 		replace[filepath.Join(*repo, "internal/verifkit/vos/vos_gen.go")] = dst
+		for _, sh := range []struct{ dir, pkgPath, pkgName string }{{"vsync", "sync", "sync"}, {"vatomic", "sync/atomic", "atomic"}} {
+			var hand []string
+			ents, err := os.ReadDir(filepath.Join(*verif, "kit", sh.dir))
+			must(err)
+			for _, e := range ents {
+				if strings.HasSuffix(e.Name(), ".go") && !strings.HasSuffix(e.Name(), "_test.go") {
+					hand = append(hand, filepath.Join(*verif, "kit", sh.dir, e.Name()))
+				}
+			}
+			src, err := genShim(hand, sh.pkgPath, sh.pkgName, sh.dir)
+			must(err)
+			dst := filepath.Join(*out, "src", "internal/verifkit", sh.dir, sh.dir+"_gen.go")
+			must(os.MkdirAll(filepath.Dir(dst), 0o755))
+			must(os.WriteFile(dst, src, 0o644))
+			replace[filepath.Join(*repo, "internal/verifkit", sh.dir, sh.dir+"_gen.go")] = dst
+		}
 	}
 
 	// 3. export shims
@@ -405,38 +421,45 @@ func rewriteFile(rel string, src []byte, rw map[string]string, crashFns map[stri
 }
 
 // genVos lists package os (type-checked from source with the toolchain in use) and re-exports what vos.go lacks.
-func genVos(handPath string) ([]byte, error) {
+func genVos(handPath string) ([]byte, error) { return genShim([]string{handPath}, "os", "os", "vos") }
+
+// genShim re-exports from package pkgPath (imported under pkgName) every exported identifier that the hand-written
+// files of the shim package do not define, so that a tree which starts using another identifier of the replaced
+// package still builds (un-instrumented pass-through).
+func genShim(handPaths []string, pkgPath, pkgName, shimName string) ([]byte, error) {
 	fset := token.NewFileSet()
-	hf, err := parser.ParseFile(fset, handPath, nil, 0)
-	if err != nil {
-		return nil, err
-	}
 	have := map[string]bool{}
-	for _, d := range hf.Decls {
-		switch d := d.(type) {
-		case *ast.FuncDecl:
-			if d.Recv == nil {
-				have[d.Name.Name] = true
-			}
-		case *ast.GenDecl:
-			for _, sp := range d.Specs {
-				switch sp := sp.(type) {
-				case *ast.TypeSpec:
-					have[sp.Name.Name] = true
-				case *ast.ValueSpec:
-					for _, n := range sp.Names {
-						have[n.Name] = true
+	for _, handPath := range handPaths {
+		hf, err := parser.ParseFile(fset, handPath, nil, 0)
+		if err != nil {
+			return nil, err
+		}
+		for _, d := range hf.Decls {
+			switch d := d.(type) {
+			case *ast.FuncDecl:
+				if d.Recv == nil {
+					have[d.Name.Name] = true
+				}
+			case *ast.GenDecl:
+				for _, sp := range d.Specs {
+					switch sp := sp.(type) {
+					case *ast.TypeSpec:
+						have[sp.Name.Name] = true
+					case *ast.ValueSpec:
+						for _, n := range sp.Names {
+							have[n.Name] = true
+						}
 					}
 				}
 			}
 		}
 	}
-	pkg, err := importer.ForCompiler(fset, "source", nil).Import("os")
+	pkg, err := importer.ForCompiler(fset, "source", nil).Import(pkgPath)
 	if err != nil {
 		return nil, err
 	}
 	var b bytes.Buffer
-	b.WriteString("// Code generated by verifgen; DO NOT EDIT.\n\npackage vos\n\nimport \"os\"\n\n")
+	fmt.Fprintf(&b, "// Code generated by verifgen; DO NOT EDIT.\n\npackage %s\n\nimport %s %q\n\nvar _ = %s.%s\n\n", shimName, pkgName, pkgPath, pkgName, firstExported(pkg))
 	names := pkg.Scope().Names()
 	sort.Strings(names)
 	for _, n := range names {
@@ -445,21 +468,35 @@ func genVos(handPath string) ([]byte, error) {
 		}
 		switch o := pkg.Scope().Lookup(n).(type) {
 		case *types.Func:
-			fmt.Fprintf(&b, "var %s = os.%s\n", n, n)
-		case *types.TypeName:
-			tp := ""
-			if named, ok := o.Type().(*types.Named); ok && named.TypeParams().Len() > 0 {
-				continue // generic types cannot be aliased without parameters (none in os today)
+			if sig, ok := o.Type().(*types.Signature); ok && sig.TypeParams().Len() > 0 {
+				continue // generic functions need a hand-written wrapper
 			}
-			fmt.Fprintf(&b, "type %s%s = os.%s\n", n, tp, n)
+			fmt.Fprintf(&b, "var %s = %s.%s\n", n, pkgName, n)
+		case *types.TypeName:
+			if named, ok := o.Type().(*types.Named); ok && named.TypeParams().Len() > 0 {
+				continue // generic types cannot be aliased without parameters
+			}
+			fmt.Fprintf(&b, "type %s = %s.%s\n", n, pkgName, n)
 		case *types.Const:
-			fmt.Fprintf(&b, "const %s = os.%s\n", n, n)
+			fmt.Fprintf(&b, "const %s = %s.%s\n", n, pkgName, n)
 		case *types.Var:
-			// a copy would go stale for variables the program assigns to (os.Args); expose the common ones by pointer-free alias
-			fmt.Fprintf(&b, "var %s = os.%s\n", n, n)
+			fmt.Fprintf(&b, "var %s = %s.%s\n", n, pkgName, n)
 		}
 	}
 	return b.Bytes(), nil
+}
+
+func firstExported(pkg *types.Package) string {
+	for _, n := range pkg.Scope().Names() {
+		if ast.IsExported(n) {
+			if _, ok := pkg.Scope().Lookup(n).(*types.Func); ok {
+				if sig := pkg.Scope().Lookup(n).Type().(*types.Signature); sig.TypeParams().Len() == 0 {
+					return n
+				}
+			}
+		}
+	}
+	return "init"
 }
 
 func must(err error) {
